@@ -372,7 +372,7 @@ fn check(s: &Setup, st: &mut Stats) -> Result<(), Fail> {
 }
 
 pub fn run(run: &mut Run) -> &'static str {
-    let cases = run.tier.pick(400_000, 20_000_000);
+    let cases = run.tier.pick(2_000_000, 40_000_000);
     let strat = tape(8..160).prop_map(Case::Tape);
     run.proptest_part("streams", RULE, strat, cases, |c: &Case, st: &mut Stats| {
         let setup = match c {
